@@ -51,8 +51,12 @@ def _gen_marathon(rng, ctx):
         r = rng.random()
         if r < 0.5:
             opl.append({"op": "solve", "h": "h%d" % rng.randrange(3)})
+            if rng.random() < 0.15:
+                opl[-1]["scribble"] = True
         elif r < 0.85:
             opl.append({"op": "solve_fresh", "d": rng.randrange(3), "prune": rng.random() < 0.6})
+            if rng.random() < 0.15:
+                opl[-1]["scribble"] = True
         elif r < 0.95:
             opl.append({"op": "toggle", "h": "h%d" % rng.randrange(3)})
         else:
@@ -121,6 +125,8 @@ def gen(rng, tier, ctx):
                 op["kill"] = {"keep": rng.random()}
             elif r2 < 0.6:
                 op["interrupt"]["exc"] = "MemoryError"
+        if op["op"] in ("solve", "solve_fresh", "batch") and rng.random() < 0.25:
+            op["scribble"] = True       # the caller edits the strategies / vectors it was handed
         opl.append(op)
     if twin_pair is not None and rng.random() < 0.7:
         # the sibling and its near-twin solved back to back, in one process, same mode
@@ -303,6 +309,9 @@ def execute(spec, w, ctx):
                                           ", same object" if handle is not None else ", fresh object",
                                           _show(s), _show(r)),
                         "result-differs" if s["status"] == r["status"] else "outcome-kind-differs")
+        if op.get("scribble") and out["status"] == "ok":
+            # the strategies / vectors it got are the caller's now; it edits them (never its own description)
+            w.fired("caller-edits-returned-value", ops.scribble(out["value"], ops.container_ids(live)))
         return None
 
     def _reload(d):
@@ -417,6 +426,8 @@ def _batch(i_op, op, spec, w, ctx, live, snap_e, ref, usable, events, states, di
                 return viol("I10.2", i_op, "batch entry %r for description %d (%s) differs from solving it alone: got %s, "
                             "reference %s" % (name, d, spec["descs"][d].get("tag"), short(got, 400), short(want, 400)),
                             "result-differs")
+    if op.get("scribble"):
+        w.fired("caller-edits-returned-value", ops.scribble(val, ops.container_ids(live)))
     return None
 
 
